@@ -279,6 +279,12 @@ func runC14(p *Program, r *Report) {
 	checkEncoders(p, r, "C14.enc")
 	checkQuantisers(p, r, "C14.enc")
 	checkColorFuncs(p, r, "C14.wire")
+	// "opaque colours decode to the same linear value through all three constructors" rests on the
+	// 8-bit and the 16-bit decode tables sampling the curve at the same real argument
+	// (i/255 = 257i/65535, each one correctly rounded division)
+	checkBuilder(p, r, "C14.sample", p.Func("linear/lut", "Build8BitToLinear"), 256, "")
+	checkBuilder(p, r, "C14.sample", p.Func("linear/lut", "Build16BitToLinear"), 65536, "")
+	r.Floor("C14.sample", 2)
 	r.Floor("C14.dec", 50)
 	r.Floor("C14.enc", 50)
 	r.Floor("C14.wire", 8)
